@@ -78,7 +78,9 @@ func main() {
 		fmt.Fprintln(os.Stderr, "unknown domain", os.Args[1])
 		os.Exit(2)
 	}
-	if os.Args[1] == "stress" {
+	if v := os.Getenv("VERIF_CASE_TIMEOUT"); v != "" && atoi(v) > 0 {
+		caseTimeout = time.Duration(atoi(v)) * time.Second // confirmation run of a case that tripped the watchdog in its batch
+	} else if os.Args[1] == "stress" {
 		// a stress case is many rounds with their own 2-3 s liveness timeouts; on a loaded machine the rounds take longer
 		caseTimeout = 30 * time.Second
 	}
